@@ -47,6 +47,12 @@ m = re.search(r'(\d+) tests run: (\d+) passed', r.stdout)
 res['suite_with_patch'] = m.group(0) if m else r.stdout[-300:]
 res['suite_ok'] = bool(m and m.group(1) == m.group(2) and int(m.group(1)) >= 319)
 clean()
+# helper fns mistaken for tests: matched no test in either run
+for n in [n for n in list(res['demo_on_clean']) if res['demo_on_clean'][n].startswith('norun') and '0 passed; 0 failed' in res['demo_on_clean'][n]
+          and res['demo_with_patch'].get(n, '').startswith('norun') and len(res['demo_on_clean']) > 1]:
+    res['demo_on_clean'].pop(n); res['demo_with_patch'].pop(n)
+    res['tests'] = [t for t in res['tests'] if t[1] != n]
+    names = [t for t in names if t[1] != n]
 res['confirmed'] = bool(names) and all(v == 'pass' for v in res['demo_on_clean'].values()) and \
     all(v == 'fail' for v in res['demo_with_patch'].values()) and res['suite_ok']
 print(json.dumps(res, indent=1))
